@@ -366,6 +366,13 @@ FastForward
 // hashgraph from a Block and associated Frame.
 func (c *core) fastForward(block *hg.Block, frame *hg.Frame) error {
 	c.logger.Debug("Fast Forward", frame.Round)
+
+	// The Block and Frame come from the network; make sure nothing is missing
+	// before using them.
+	if err := checkFastForwardShape(block, frame); err != nil {
+		return err
+	}
+
 	peerSet := peers.NewPeerSet(frame.Peers)
 
 	// Check Block Signatures
@@ -407,6 +414,46 @@ func (c *core) fastForward(block *hg.Block, frame *hg.Frame) error {
 	c.validators = peers.NewPeerSet(lastPeers)
 
 	return nil
+}
+
+// checkFastForwardShape rejects Blocks and Frames with missing elements.
+func checkFastForwardShape(block *hg.Block, frame *hg.Frame) error {
+	checkPeers := func(ps []*peers.Peer) error {
+		for _, p := range ps {
+			if p == nil || len(p.PubKeyHex) < 2 {
+				return fmt.Errorf("Invalid Peer in Frame")
+			}
+		}
+		return nil
+	}
+	checkEvents := func(evs []*hg.FrameEvent) error {
+		for _, fe := range evs {
+			if fe == nil || fe.Core == nil || len(fe.Core.Body.Parents) != 2 {
+				return fmt.Errorf("Invalid FrameEvent in Frame")
+			}
+		}
+		return nil
+	}
+	if block.Signatures == nil {
+		return fmt.Errorf("Block without signatures")
+	}
+	if err := checkPeers(frame.Peers); err != nil {
+		return err
+	}
+	for _, ps := range frame.PeerSets {
+		if err := checkPeers(ps); err != nil {
+			return err
+		}
+	}
+	for _, r := range frame.Roots {
+		if r == nil {
+			return fmt.Errorf("Invalid Root in Frame")
+		}
+		if err := checkEvents(r.Events); err != nil {
+			return err
+		}
+	}
+	return checkEvents(frame.Events)
 }
 
 // getAnchorBlockWithFrame returns GetAnchorBlockWithFrame from the hashgraph
